@@ -39,6 +39,8 @@ TOL = Fr(1, 2 ** 40)
 QDIM = 8
 KNOWN_KEY = "lsolve-singular-integer-roundoff-returns-result"
 HARD_SING_KEY = "lsolve-singular-exact-returns-result"
+REF_RAISES_KEY = "lsolve-singular-returns-result-where-pinned-algorithm-raises"
+REF_RETURNS_KEY = "lsolve-singularerror-where-pinned-algorithm-returns-result"
 
 
 # ----------------------------------------------------------------------------
@@ -211,18 +213,147 @@ def impl_eig(Csym, d0):
         return "raised:" + type(ex).__name__, B, d, e, tab
 
 
-def impl_cmaes_eig(Csym):
-    """the real method CMAES.eigendecomposition on a stub object"""
+def _tred2_tracer(tab):
+    import platypus._math as M
+    code = M.tred2.__code__
+    lines = _pow_lines()
+
+    def local(frame, event, arg):
+        if event == "line" and frame.f_lineno in lines:
+            for name in ("d", "e"):
+                lst = frame.f_locals.get(name)
+                if isinstance(lst, list):
+                    for x in lst:
+                        if isinstance(x, float) and x == x and abs(x) < 1e150:
+                            if x ** 2 != x * x:
+                                tab[x] = x ** 2
+        return local
+
+    def tracer(frame, event, arg):
+        return local if frame.f_code is code else None
+    return tracer
+
+
+_ORIG = {}
+
+
+def orig_eigendecomposition():
     from platypus.algorithms import CMAES
-    n = len(Csym)
+    if "eig" not in _ORIG:
+        _ORIG["eig"] = CMAES.eigendecomposition
+    return _ORIG["eig"]
+
+
+def call_eigendecomposition(obj):
+    """Calls the REAL CMAES.eigendecomposition on obj (a CMAES instance or a stub with the attributes the method
+    reads) and captures what tql2 left behind (V, d, e - the method overwrites d by its square roots afterwards)
+    and libm's pow values inside tred2.  Returns (tag, V, d, e, powtab)."""
+    import contextlib
+    import io
+    import platypus.algorithms as ALG
+    cap = {}
+    orig_tql2 = ALG.tql2
+
+    def tql2_wrap(n_, d_, e_, V_):
+        try:
+            orig_tql2(n_, d_, e_, V_)
+        finally:
+            cap["d"] = list(d_)
+            cap["e"] = list(e_)
+            cap["V"] = [list(r) for r in V_]
+
+    tab = {}
+    old = sys.gettrace()
+    ALG.tql2 = tql2_wrap
+    sys.settrace(_tred2_tracer(tab))
+    try:
+        with contextlib.redirect_stderr(io.StringIO()):      # "an eigenvalue has become negative" for indefinite inputs
+            orig_eigendecomposition()(obj)
+        tag = "ok" if cap else "raised:NoTql2Call"
+        exc = None
+    except Exception as ex:  # noqa
+        tag = "raised:" + type(ex).__name__
+        exc = ex
+    finally:
+        sys.settrace(old)
+        ALG.tql2 = orig_tql2
+    return tag, cap.get("V"), cap.get("d"), cap.get("e"), tab, exc
+
+
+def impl_eig_method(Cstore, d0):
+    """the real method on a stub object whose C is stored the way CMAES stores it: Cstore[i][j] for j <= i is the
+    covariance matrix (update_distribution, algorithms.py:1591-1596, writes only j <= i; check_eigensystem reads
+    C[max(i,j)][min(i,j)]); the entries above the diagonal are whatever was left there."""
+    n = len(Cstore)
     stub = types.SimpleNamespace(
         iteration=1, last_eigenupdate=0, diagonal_iterations=0, check_consistency=False,
         problem=types.SimpleNamespace(nvars=n),
-        C=[list(r) for r in Csym],
+        C=[list(r) for r in Cstore],
         B=[[1.0 if i == j else 0.0 for j in range(n)] for i in range(n)],
-        diag_D=[1.0] * n)
-    CMAES.eigendecomposition(stub)
-    return stub.B, stub.diag_D
+        diag_D=list(d0))
+    tag, V, d, e, tab, _ = call_eigendecomposition(stub)
+    return tag, V, d, e, tab, stub.B, stub.diag_D
+
+
+def stale_upper(rng, Cm):
+    """same covariance matrix (lower triangle), upper triangle stale: zeros of the initial identity / old values / unrelated numbers"""
+    n = len(Cm)
+    k = rng.random()
+    out = [list(r) for r in Cm]
+    for i in range(n):
+        for j in range(i + 1, n):
+            out[i][j] = 0.0 if k < 0.5 else (Cm[i][j] * rng.uniform(0.5, 1.5) if k < 0.75 else rng.uniform(-1.0, 1.0))
+    return out
+
+
+def cmaes_runs(ctx, rng, dims, dist):
+    """real CMAES runs on rotated ellipsoids; every eigendecomposition call of the run is recorded:
+    (C as stored at the call - deep copy, diag_D before, tag, V, d, e, powtab)"""
+    import copy
+    import random as R
+    from platypus import CMAES, Problem, Real
+    records = []
+    orig = orig_eigendecomposition()
+    for n in dims:
+        rot = [[rng.gauss(0.0, 1.0) for _ in range(n)] for _ in range(n)]
+
+        def f(x, rot=rot, n=n):
+            y = [sum(rot[i][j] * x[j] for j in range(n)) for i in range(n)]
+            return [sum((10.0 ** (2.0 * i / max(1, n - 1))) * y[i] ** 2 for i in range(n))]
+
+        problem = Problem(n, 1)
+        problem.types[:] = Real(-5.0, 5.0)
+        problem.function = f
+        offspring = rng.choice([12, 16, 20])
+        gens = rng.randrange(25, 41)
+        seed = rng.getrandbits(32)
+        mine = []
+
+        def wrapper(self, mine=mine):
+            if self.diagonal_iterations >= self.iteration:
+                return orig(self)
+            Cs = copy.deepcopy(self.C)
+            d0 = list(self.diag_D)
+            tag, V, d, e, tab, exc = call_eigendecomposition(self)
+            mine.append((Cs, d0, tag, V, d, e, tab))
+            if exc is not None:
+                raise exc
+
+        state = R.getstate()
+        CMAES.eigendecomposition = wrapper
+        try:
+            R.seed(seed)
+            alg = CMAES(problem, offspring_size=offspring)
+            alg.run(offspring * gens)
+        except Exception as ex:  # noqa
+            ctx.violation("cmaes-run-raises-" + type(ex).__name__, "CMAES run (nvars=%d, seed=%d) raised %r" % (n, seed, ex),
+                          {"kind": "cmaes-run", "nvars": n, "seed": seed}, concrete=False)
+        finally:
+            CMAES.eigendecomposition = orig
+            R.setstate(state)
+        dist["runs"].append({"nvars": n, "offspring": offspring, "generations": gens, "eigendecomposition_calls": len(mine)})
+        records.append(mine)
+    return records
 
 
 # ----------------------------------------------------------------------------
@@ -263,6 +394,35 @@ def eig_oracle(ctx, Csym, tag, V, d, origin):
     return ok
 
 
+def ref_lsolve(A, b):
+    """Independent transcription of the DOCUMENTED algorithm pinned by this property (not of the code's text):
+    Gaussian elimination on binary64 with partial pivoting by absolute value (strict >, first maximal row wins),
+    the row exchange done unconditionally, SingularError exactly when the pivot's absolute value is <= EPSILON = 2^-52
+    (tested at every step, after the exchange), then back substitution.  Used only to classify singular inputs:
+    the known finding covers those on which THIS algorithm itself returns a result."""
+    n = len(b)
+    M = [[float(v) for v in r] + [float(b[i])] for i, r in enumerate(A)]
+    for p in range(n):
+        best = p
+        for i in range(p + 1, n):
+            if abs(M[i][p]) > abs(M[best][p]):
+                best = i
+        M[p], M[best] = M[best], M[p]
+        if abs(M[p][p]) <= 2.0 ** -52:
+            return "singular", None
+        for i in range(p + 1, n):
+            alpha = M[i][p] / M[p][p]
+            for j in range(p, n + 1):
+                M[i][j] -= alpha * M[p][j]
+    x = [0.0] * n
+    for i in range(n - 1, -1, -1):
+        acc = 0.0
+        for j in range(i + 1, n):
+            acc += M[i][j] * x[j]
+        x[i] = (M[i][n] - acc) / M[i][i]
+    return "solved", x
+
+
 def structurally_singular(A):
     """singular in a way that every float elimination preserves exactly: a zero row, a zero column, or a row that is
     a (+-) power-of-two multiple of another row (alpha is then exact and the row is eliminated to exact zeros)"""
@@ -288,7 +448,14 @@ def lsolve_oracle(ctx, A, b, tag, x, origin, stats):
         # exactly singular input: must signal
         stats["singular"] += 1
         if tag != "singular":
-            key = HARD_SING_KEY if structurally_singular(A) else KNOWN_KEY
+            rtag, _ = ref_lsolve(A, b)
+            stats["ref_" + rtag + "_on_singular_missed"] = stats.get("ref_" + rtag + "_on_singular_missed", 0) + 1
+            if structurally_singular(A):
+                key = HARD_SING_KEY
+            elif rtag == "singular":
+                key = REF_RAISES_KEY      # NOT the known finding: the pinned algorithm detects this one
+            else:
+                key = KNOWN_KEY
             if key == KNOWN_KEY:
                 stats["known_singular_missed"] += 1
                 if stats["known_singular_missed"] > 1:
@@ -300,6 +467,10 @@ def lsolve_oracle(ctx, A, b, tag, x, origin, stats):
         ctx.violation("lsolve-raises-" + tag.replace(":", "-"), "lsolve raised %s on a non-singular %dx%d system (%s) A=%r b=%r" % (tag, n, n, origin, A, b), rp)
         return False
     if tag == "singular":
+        rtag, _ = ref_lsolve(A, b)
+        if rtag == "solved":
+            ctx.violation(REF_RETURNS_KEY, "lsolve raised SingularError on a non-singular %dx%d system on which the pinned algorithm returns a result (%s) A=%r b=%r" % (n, n, origin, A, b), rp)
+            return False
         if min(piv) >= TOL:
             ctx.violation("lsolve-singularerror-on-nonsingular", "lsolve raised SingularError although every exact pivot is >= 2^-40 (min %.3e) (%s) A=%r" % (float(min(piv)), origin, A), rp)
             return False
@@ -474,6 +645,32 @@ def gen_singular_exact(rng, n):
     return A, gen_rhs(rng, n, A), "singular-exact:" + kind
 
 
+def gen_singular_column(rng, n):
+    """one column an exact power-of-two multiple of another, or the exact sum / difference of two others; entries are
+    small binary fractions so the matrix is exactly singular while the elimination (alpha = a/b) is inexact: the rank
+    deficiency shows up as rounding residue at a non-last step."""
+    den = rng.choice([16.0, 32.0, 8.0])
+    lo = 1 if rng.random() < 0.6 else -int(den)
+    A = [[rng.randint(lo, int(den)) / den for _ in range(n)] for _ in range(n)]
+    cols = list(range(n))
+    rng.shuffle(cols)
+    if n >= 3 and rng.random() < 0.4:
+        j, i1, i2 = cols[0], cols[1], cols[2]
+        sg = rng.choice([1.0, -1.0])
+        for r in range(n):
+            A[r][j] = A[r][i1] + sg * A[r][i2]
+        kind = "sum"
+    else:
+        j, i1 = cols[0], cols[1 % n]
+        f = rng.choice([0.5, 2.0, 0.25, -0.5, 1.0])
+        for r in range(n):
+            A[r][j] = f * A[r][i1] if n > 1 else 0.0
+        kind = "multiple"
+    k = rng.random()
+    b = [float(rng.randint(-5, 5)) for _ in range(n)] if k < 0.5 else ([0.0] * n if k < 0.7 else [1.0] * n)
+    return A, b, "singular-column-" + kind
+
+
 def gen_singular_integer(rng, n):
     K = rng.choice([3, 9, 50])
     A = [[rng.randint(-K, K) for _ in range(n)] for _ in range(n)]
@@ -542,6 +739,19 @@ def exact_shadow(A, b):
 
 
 # ----------------------------------------------------------------------------
+def balance(lits, cases, shard):
+    """reorder (lits, cases) so that every shard of `shard` consecutive literals gets a similar amount of text
+    (the big dimension-12 cases are otherwise all in the last shards, which then dominate the wall time)"""
+    k = max(1, -(-len(lits) // shard))
+    order = sorted(range(len(lits)), key=lambda i: -len(lits[i]))
+    buckets = [[] for _ in range(k)]
+    for pos, i in enumerate(order):
+        buckets[pos % k].append(i)
+    # buckets may differ in length by one: pad order so that contiguous slicing by `shard` reproduces them closely
+    flat = [i for bkt in buckets for i in bkt]
+    return [lits[i] for i in flat], [cases[i] for i in flat]
+
+
 def run(ctx):
     rng = ctx.rng
     cov = ctx.coverage
@@ -590,54 +800,86 @@ def run(ctx):
                 k = 0 if r % 2 == 0 else rng.choice(SCALE_EXPS)      # every other matrix at a non-unit magnitude
                 dist_e["scale_exp"][k] = dist_e["scale_exp"].get(k, 0) + 1
                 todo.append((scaled(gen_sym(rng, n, fam), k), fam if k == 0 else "%s*2^%d" % (fam, k)))
-    for Cm, fam in todo:
-        n = len(Cm)
-        d0 = [1.0] * n if rng.random() < 0.7 else [rnd_float(rng) for _ in range(n)]
-        tag, B, d, e, tab = impl_eig(Cm, d0)
-        ctx.count()
-        dist_e["family"][fam.split("*")[0]] = dist_e["family"].get(fam.split("*")[0], 0) + 1
-        dist_e["dim"][n] = dist_e["dim"].get(n, 0) + 1
+    def add_eig_case(Cstore, d0, tag, B, d, e, tab, fam):
+        tablit = C.list_lit(["(%s, %s)" % (flit(k), flit(v)) for k, v in tab.items()])
         dist_e["pow_table_entries"] += len(tab)
         dist_e["cases_with_pow_entries"] += 1 if tab else 0
-        if n >= 3 and any(Cm[i][j] != 0.0 for i in range(n) for j in range(i)):
-            ctx.mark("eig:" + repr(Cm))
-        tablit = C.list_lit(["(%s, %s)" % (flit(k), flit(v)) for k, v in tab.items()])
         if tag == "ok":
             out = "(EOk %s %s %s)" % (mlit(B), vlit(d), vlit(e))
         else:
             dist_e["raised"] += 1
             kind = tag.split(":")[1]
             out = "(ERaised %s)" % kind if kind in ("IndexError", "ZeroDivisionError", "ValueError", "UnboundLocalError") else "EOther"
-        eig_lits.append("EC %s %s %s %s" % (mlit(Cm), vlit(d0), tablit, out))
-        eig_cases.append((Cm, fam))
-        eig_oracle(ctx, Cm, tag, B, d, fam)
-        # the method itself (PSD inputs only: it clips negative eigenvalues): same B, diag_D = sqrt(d)
-        if tag == "ok" and finite(d) and all(v >= 0.0 for v in d):
-            try:
-                B2, D2 = impl_cmaes_eig(Cm)
-                dist_e["cmaes_method_calls"] += 1
-                tag1, B1, d1, _, _ = impl_eig(Cm, [1.0] * n)
-                if tag1 != "ok" or B2 != B1 or D2 != [math.sqrt(v) for v in d1]:
-                    eig_oracle(ctx, Cm, "ok", B2, [v * v for v in D2], fam + " via CMAES.eigendecomposition")
-                    cmaes_diff.append(Cm)
-            except Exception as ex:  # noqa
-                ctx.violation("cmaes-eigendecomposition-raises-" + type(ex).__name__, "CMAES.eigendecomposition raised %r on PSD %r" % (ex, Cm), {"kind": "eig", "C": hexm(Cm)})
+        eig_lits.append("EC %s %s %s %s" % (mlit(Cstore), vlit(d0), tablit, out))
+        eig_cases.append((Cstore, fam))
+
+    dist_e["stale_upper_triangle"] = 0
+    for idx, (Cm, fam) in enumerate(todo):
+        n = len(Cm)
+        d0 = [1.0] * n if rng.random() < 0.7 else [rnd_float(rng) for _ in range(n)]
+        # storage as CMAES keeps it: the lower triangle is the matrix; every other case has a stale upper triangle
+        Cstore = stale_upper(rng, Cm) if (idx % 2 == 1 and n >= 2) else Cm
+        if Cstore is not Cm:
+            dist_e["stale_upper_triangle"] += 1
+            fam = fam + " stale-upper"
+        tag, B, d, e, tab, Bfin, Dfin = impl_eig_method(Cstore, d0)
+        ctx.count()
+        dist_e["cmaes_method_calls"] += 1
+        dist_e["family"][fam.split("*")[0].split(" ")[0]] = dist_e["family"].get(fam.split("*")[0].split(" ")[0], 0) + 1
+        dist_e["dim"][n] = dist_e["dim"].get(n, 0) + 1
+        if n >= 3 and any(Cm[i][j] != 0.0 for i in range(n) for j in range(i)):
+            ctx.mark("eig:" + repr(Cstore))
+        add_eig_case(Cstore, d0, tag, B, d, e, tab, fam)
+        eig_oracle(ctx, Cstore, tag, B, d, fam + " via CMAES.eigendecomposition")
+        # cross-check: the method = tred2 + tql2 on the mirrored LOWER triangle, then diag_D = sqrt(max(d, 0))
+        tag1, B1, d1, e1, _ = impl_eig(Cm, d0)
+        if tag1 != tag or (tag == "ok" and (B1 != B or d1 != d or Bfin != B or Dfin != [math.sqrt(v) if v >= 0.0 else 0.0 for v in d])):
+            cmaes_diff.append(Cstore)
+    # real CMAES runs: every eigendecomposition call of the run is checked by the oracle, some go to the bit-exact model
+    dist_e["cmaes_runs"] = {"runs": [], "calls_checked": 0, "calls_with_asymmetric_storage": 0, "max_rel_offdiag": 0.0, "bit_exact_cases": 0}
+    for mine in cmaes_runs(ctx, rng, ctx.scale([2, 3, 5, 8, 12], [2, 3, 4, 5, 6, 8, 10, 12, 2, 3, 5, 8, 12]), dist_e["cmaes_runs"]):
+        picks = set([0, 1, len(mine) // 2, len(mine) - 2, len(mine) - 1])
+        for t, (Cs, d0, tag, V, d, e, tab) in enumerate(mine):
+            n = len(Cs)
+            ctx.count()
+            dist_e["cmaes_runs"]["calls_checked"] += 1
+            if any(Cs[i][j] != Cs[j][i] for i in range(n) for j in range(i)):
+                dist_e["cmaes_runs"]["calls_with_asymmetric_storage"] += 1
+            mx = max(abs(Cs[i][j]) for i in range(n) for j in range(i + 1))
+            off = max([abs(Cs[i][j]) for i in range(n) for j in range(i)] + [0.0])
+            dist_e["cmaes_runs"]["max_rel_offdiag"] = max(dist_e["cmaes_runs"]["max_rel_offdiag"], off / mx if mx else 0.0)
+            if n >= 3 and off > 0.0:
+                ctx.mark("eig:" + repr(Cs))
+            eig_oracle(ctx, Cs, tag, V, d, "CMAES run nvars=%d call %d via CMAES.eigendecomposition" % (n, t))
+            if t in picks:
+                dist_e["cmaes_runs"]["bit_exact_cases"] += 1
+                add_eig_case(Cs, d0, tag, V, d, e, tab, "cmaes-run nvars=%d call %d" % (n, t))
+    ctx.obligation("cmaes-runs-adapt-a-correlated-covariance-with-stale-upper-triangle", "harness",
+                   dist_e["cmaes_runs"]["calls_with_asymmetric_storage"] >= 10 and dist_e["cmaes_runs"]["max_rel_offdiag"] > 1e-3,
+                   "the real runs did not produce what they are meant to exercise: %r" % (dist_e["cmaes_runs"],))
     lap("eig-impl+oracle")
-    ctx.obligation("cmaes-eigendecomposition-calls-tred2-tql2-as-modelled(%d PSD matrices through the real method)" % dist_e["cmaes_method_calls"], "correspondence",
-                   not cmaes_diff and dist_e["cmaes_method_calls"] > 0,
-                   "CMAES.eigendecomposition's B, diag_D differ from tred2+tql2 on the mirrored lower triangle / sqrt(d) for %r" % (cmaes_diff[:2],))
+    ctx.obligation("cmaes-eigendecomposition-is-tred2-tql2-on-the-lower-triangle-then-sqrt(%d calls of the real method, %d with a stale upper triangle)" % (dist_e["cmaes_method_calls"], dist_e["stale_upper_triangle"]),
+                   "correspondence", not cmaes_diff and dist_e["cmaes_method_calls"] > 0,
+                   "CMAES.eigendecomposition's B / tql2 output / diag_D differ from tred2+tql2 on the mirrored lower triangle of C and sqrt(max(d,0)) for %r" % (cmaes_diff[:2],))
     ctx.sample({"eig_input": eig_cases[len(eig_cases) // 2][0], "family": eig_cases[len(eig_cases) // 2][1]})
-    ctx.sample({"coq_eig_case": eig_lits[4][:600]})
+    ctx.sample({"coq_eig_case": min(eig_lits, key=len)[:600]})
     imports = ["Base.Num", "Model.LSolve", "Model.EigFloat", "Harness.H20"]
-    bad = C.run_coq_cases(ctx, "eig", imports, "eigcase", "c20_eig_check", eig_lits, shard=max(4, len(eig_lits) // 15 + 1))
+    eig_lits, eig_cases = balance(eig_lits, eig_cases, max(4, len(eig_lits) // 15 + 1))
+    shard_e = max(4, len(eig_lits) // 15 + 1)
+    # one pass evaluates both checks (the literals are parsed once); only if something fails are they run separately
+    both = C.run_coq_cases(ctx, "eigboth", imports, "eigcase", "(fun k => andb (c20_eig_check k) (c20_eig_residual_check k))", eig_lits, shard=shard_e)
+    if both == []:
+        bad, bad2 = [], []
+    else:
+        bad = C.run_coq_cases(ctx, "eig", imports, "eigcase", "c20_eig_check", eig_lits, shard=shard_e)
+        bad2 = C.run_coq_cases(ctx, "eigres", imports, "eigcase", "c20_eig_residual_check", eig_lits, shard=shard_e)
     if bad is not None:
-        ctx.obligation("correspondence:eig-bit-exact(tred2+tql2 vs PrimFloat model, %d matrices)" % len(eig_lits), "correspondence", not bad,
+        ctx.obligation("correspondence:eig-bit-exact(tred2+tql2 inside the real CMAES.eigendecomposition vs PrimFloat model, %d matrices incl. %d from real CMAES runs)" % (len(eig_lits), dist_e["cmaes_runs"]["bit_exact_cases"]), "correspondence", not bad,
                        "bits differ on cases %r; first input: %r" % (bad[:10], eig_cases[bad[0]] if bad else ""))
         cov["eig_correspondence_cases"] = len(eig_lits)
         cov["eig_correspondence_mismatches"] = len(bad)
         for i in bad[:3]:
             ctx.sample({"eig_model_impl_disagree": repr(eig_cases[i])})
-    bad2 = C.run_coq_cases(ctx, "eigres", imports, "eigcase", "c20_eig_residual_check", eig_lits, shard=max(4, len(eig_lits) // 15 + 1))
     if bad2 is not None:
         ctx.obligation("coq-exact-residual-accepts-float-model(%d matrices)" % len(eig_lits), "correspondence", not bad2,
                        "the model's V, d fail ||V diag(d) V^T - C|| <= 2^-40 ||C||, ||V^T V - I|| <= 2^-40 n or ordering on cases %r; first: %r" % (bad2[:10], eig_cases[bad2[0]] if bad2 else ""))
@@ -678,6 +920,9 @@ def run(ctx):
             todo.append(gen_singular_exact(rng, n))
         for _ in range(max(1, reps_s // 2)):
             todo.append(gen_singular_integer(rng, n))
+        if n >= 4:
+            for _ in range(reps_s + 2):
+                todo.append(gen_singular_column(rng, n))
     for A, b, fam in todo:
         n = len(A)
         tag, x, A1, b1 = impl_lsolve(A, b)
@@ -699,6 +944,7 @@ def run(ctx):
         lsolve_oracle(ctx, A, b, tag, x, fam, stats)
     lap("lsolve-impl+oracle")
     ctx.sample({"lsolve_input": {"A": lf_cases[40][0], "b": lf_cases[40][1], "family": lf_cases[40][2]}})
+    lf_lits, lf_cases = balance(lf_lits, lf_cases, max(8, len(lf_lits) // 15 + 1))
     bad = C.run_coq_cases(ctx, "lsf", imports, "lfcase", "c20_lsolveF_check", lf_lits, shard=max(8, len(lf_lits) // 15 + 1))
     if bad is not None:
         ctx.obligation("correspondence:lsolve-bit-exact(real lsolve vs the generic model at binary64, %d systems: x, eliminated A and b, SingularError)" % len(lf_lits),
@@ -715,8 +961,10 @@ def run(ctx):
         if k < 0.7:
             fam = rng.choice(SYS_FAMILIES)
             A, b = gen_sys(rng, n, fam)
-        elif k < 0.9:
+        elif k < 0.8:
             A, b, fam = gen_singular_exact(rng, n)
+        elif k < 0.9:
+            A, b, fam = gen_singular_column(rng, max(n, 4))
         else:
             A, b, fam = gen_singular_integer(rng, n)
         tag, x, _, _ = impl_lsolve(A, b)
@@ -761,6 +1009,7 @@ def run(ctx):
         lq_cases.append((A, b))
     lap("lsolveQ-shadow")
     cov["lsolve_exact_correspondence"] = {"cases": len(lq_lits), "singular_cases": nsing, "discarded_inexact": discarded, "generated": tries}
+    lq_lits, lq_cases = balance(lq_lits, lq_cases, max(8, len(lq_lits) // 15 + 1))
     bad = C.run_coq_cases(ctx, "lsq", imports, "lqcase", "c20_lsolveQ_check", lq_lits, shard=max(8, len(lq_lits) // 15 + 1), timeout=ctx.scale(150, 600))
     if bad is not None:
         ctx.obligation("correspondence:lsolve-exact(Q model vs real lsolve on %d systems whose float run is exact; %d inexact discarded)" % (len(lq_lits), discarded),
@@ -786,8 +1035,8 @@ def replay(ctx, data):
         Cm = unhexm(rp["C"])
         ctx.count()
         if rp.get("via") == "cmaes":
-            B2, D2 = impl_cmaes_eig(Cm)
-            eig_oracle(ctx, Cm, "ok", B2, [v * v for v in D2], "replay via CMAES.eigendecomposition")
+            tag, B, d, e, _, _, _ = impl_eig_method(Cm, [1.0] * len(Cm))
+            eig_oracle(ctx, Cm, tag, B, d, "replay via CMAES.eigendecomposition")
         else:
             tag, B, d, e, _ = impl_eig(Cm, [1.0] * len(Cm))
             eig_oracle(ctx, Cm, tag, B, d, "replay")
